@@ -188,6 +188,8 @@ func (r *reqEnv) onEmit(h *simnet.Handle, em *simnet.Emission) {
 
 // run executes the request.
 func (r *reqEnv) run(ctx context.Context) (*result.Results, error) {
+	allocMu.Lock()
+	defer allocMu.Unlock()
 	f := r.fetcher
 	if f == nil {
 		f = &scriptedFetcher{ip: net.ParseIP("192.0.2.200")}
